@@ -157,6 +157,9 @@ CONS = [
     ("do_forever", "do\n{S}\nexit\nend do", "one"),
     ("do_label", "do {L1} {n1} = 1, {d1}\n{S}\n{L1} continue", "fix one"),
     ("do_label_action", "do {L1} {n1} = 1, {d1}\n{S}\n{L1} {n2} = {n1}", "fix"),
+    ("do_label_ifstmt", "do {L1} {n1} = 1, {d1}\n{S}\n{L1} if ({n2} > {d2}) {n2} = {d2}", "fix"),
+    ("do_var_concurrent", "do concurrent = 1, {d1}\n{S}\nend do", "fix"),
+    ("do_var_concurrent_label", "do {L1}, concurrent_{n1} = 1, {d1}, 2\n{S}\n{L1} continue", "fix"),
     ("do_shared", "do {L1} {n1} = 1, {d1}\ndo {L1} {n2} = 1, {d2}\n{S}\n{L1} continue", "fix"),
     ("do_label_enddo", "do {L1} {n1} = 1, {d1}\n{S}\n{L1} end do", "fix"),
     ("select_case", "select case ({n1})\ncase ({d1})\n{S}\ncase ({d2}:{d3})\n{S}\ncase default\n{S}\nend select", "fix one"),
